@@ -8,11 +8,11 @@ def compressedSuffix : String := ".tar.gz"
 def compressedSuffixBytes : List Nat := [46, 116, 97, 114, 46, 103, 122]
 def markKeys : List String := ["path", "path+="]
 def pathParts : List String := ["join-b64key", "param2", "param3", "field-Suffix"]
-def storeCalls : List String := ["mark-final", "remove-final", "store", "rename-tmp-final"]
+def storeCalls : List String := ["mark-final", "mark-tmp", "remove-final", "store", "rename-tmp-final"]
 def retrieveCalls : List String := ["exists-entry", "mark-entry", "restore", "restore"]
 def tmpSuffix : String := "="
 def tmpSuffixBytes : List Nat := [61]
-def storeMarks : List String := ["final"]
+def storeMarks : List String := ["final", "tmp"]
 def markedAdds : String := "recorded-size"
 def unmarkedAdds : String := "walked-size"
 def plainWalkSkipsEntryDirs : Bool := true
